@@ -8,7 +8,7 @@ FLAVORS = ['default', 'dtostre']
 RULE = ('direct calls with exact-size heap buffers under ASan: SCPI_DoubleToStr / SCPI_FloatToStr (D2S/F2S), SCPI_NumberToStr with every unit name and every special-number name (N2S), '
         'SCPI_dtostre (DTOSTRE), the integer formatters (I2S) and SCPI_ParamCopyText (scenario with quoted text and doubled quotes), each for every buffer length 0..40 crossed with values whose text is '
         'shorter than, equal to, one longer than and much longer than the buffer. Non-trivial: the text does not fit the buffer; distinct = distinct lines.')
-MODELLED = 'SCPI_NumberToStr (strncpy/strncat), SCPI_Double/FloatToStr (snprintf + strlen), the integer formatter and the text copy loop are modelled with checked writes (BufModel, FmtModel, ParserModel.copy_loop); SCPI_dtostre\'s final copy is covered by the sanitised run only'
+MODELLED = 'SCPI_NumberToStr (strncpy/strncat), SCPI_Double/FloatToStr (snprintf + strlen), the integer formatter and the text copy loop are modelled with checked writes (BufModel, FmtModel, ParserModel.copy_loop); SCPI_dtostre\'s final copy is judged against the layout model (proved in DtostreLayout.v) run on the digits scpi_ecvt produced, cut to the buffer size'
 ASSUMPTIONS = ['a write past the buffer is detected by ASan on the exact-size allocation; the returned length and the NUL are judged from the bytes left in the buffer']
 
 
@@ -153,7 +153,38 @@ def streams(tier, rng):
     yield {'name': 'fill-default', 'cases': cases, 'oracle': oracle,
            'nontrivial': lambda c, o: c if (info[c][2] <= 12) else None}
     dcases = [c for c in cases if c.startswith(('D2S', 'F2S', 'DTOSTRE', 'N2S 0'))]
-    yield {'name': 'fill-dtostre-build', 'flavor': 'dtostre', 'cases': dcases[:: (2 if tier == 'quick' else 1)], 'model': False,
+
+    def dcopy_post(cases_, outs):
+        # SCPI_dtostre's final copy: what arrives in the caller's buffer is the laid-out text cut to size - 1 characters
+        # (the layout model, proved in DtostreLayout.v, run on the digits scpi_ecvt produced)
+        lay, idx = [], []
+        for i, (c, o) in enumerate(zip(cases_, outs)):
+            if not c.startswith('DTOSTRE') or o.startswith('X') or ' X' in o:
+                continue
+            f = o.split(' ')
+            cf = c.split(' ')
+            if len(f) < 3 or f[1].startswith('-') or int(cf[3]) == 0:
+                continue
+            digits, decpt = f[1].rsplit(',', 1)
+            lay.append('LAYOUT %s %s %d %d' % (digits, decpt, int(cf[2]), int(cf[1], 16) >> 63))
+            idx.append(i)
+        if not lay:
+            return []
+        mo = vf.run_model(lay, 'dtostre')
+        res = []
+        for l, m, i in zip(lay, mo, idx):
+            if m.startswith('?'):
+                continue
+            size = int(cases_[i].split(' ')[3])
+            want = m.split(' ')[1][:2 * (size - 1)]
+            f = outs[i].split(' ')
+            got = f[2] if len(f) == 4 else ''
+            if got != want:
+                res.append((i, 'dtostre-copy', 'SCPI_dtostre into %d bytes wrote %r, the laid-out text %r cut to %d characters is %r' % (size, vf.unhx(got), vf.unhx(m.split(' ')[1]), size - 1, vf.unhx(want))))
+                if len(res) > 5:
+                    break
+        return res
+    yield {'name': 'fill-dtostre-build', 'flavor': 'dtostre', 'cases': dcases[:: (2 if tier == 'quick' else 1)], 'model': False, 'post': dcopy_post,
            'oracle': lambda c, o: ([] if (o.startswith('X') or not c.startswith('DTOSTRE')) else oracle(c, o)), 'nontrivial': lambda c, o: c if info[c][2] <= 12 else None}
     # quoted-text copy
     tcases, tinfo = [], {}
